@@ -7,6 +7,9 @@ package searchdomains
 // This is an searchdomains plugin that adds default DNS search domains.
 
 import (
+	"fmt"
+	"strings"
+
 	"github.com/coredhcp/coredhcp/handler"
 	"github.com/coredhcp/coredhcp/logger"
 	"github.com/coredhcp/coredhcp/plugins"
@@ -50,13 +53,36 @@ func copySlice(original []string) []string {
 	return copied
 }
 
+// validateDomains makes sure that every domain can be encoded as a sequence
+// of RFC 1035 labels: a longer label cannot be put on the wire (its length byte
+// would be read as a compression pointer, or wrap around).
+func validateDomains(domains []string) error {
+	for _, domain := range domains {
+		if len(domain) > 253 {
+			return fmt.Errorf("domain name longer than 253 bytes: %s", domain)
+		}
+		for _, label := range strings.Split(domain, ".") {
+			if len(label) > 63 {
+				return fmt.Errorf("label longer than 63 bytes in domain name %s", domain)
+			}
+		}
+	}
+	return nil
+}
+
 func setup6(args ...string) (handler.Handler6, error) {
+	if err := validateDomains(args); err != nil {
+		return nil, err
+	}
 	v6SearchList = args
 	log.Printf("Registered domain search list (DHCPv6) %s", v6SearchList)
 	return domainSearchListHandler6, nil
 }
 
 func setup4(args ...string) (handler.Handler4, error) {
+	if err := validateDomains(args); err != nil {
+		return nil, err
+	}
 	v4SearchList = args
 	log.Printf("Registered domain search list (DHCPv4) %s", v4SearchList)
 	return domainSearchListHandler4, nil
